@@ -189,6 +189,9 @@ def _canonicalise_subscripts(tree):
                 return isinstance(e, ast.Slice) and e.lower is None and e.upper is None and e.step is None
             if not full(elts[-1]):
                 continue
+            # the written subscript count is kept for rank rules: x[a, b, :, :] needs four axes, x[a, b] only two
+            n._nsub_written = len(elts)
+            n._written = ast.unparse(n)
             while len(elts) > 1 and full(elts[-1]):
                 elts.pop()
             n.slice = elts[0] if len(elts) == 1 else ast.copy_location(ast.Tuple(elts=elts, ctx=ast.Load()), n.slice)
